@@ -1,17 +1,67 @@
 from checks import pbt, fuzz, P
 
+# loopback properties: every shrink attempt opens a real connection and a failing one may sit in a
+# 30 s bounded wait, so shrinking gets a time box
+_LOOP = dict(extra=["--shrink-seconds", "20"])
+
 SPEC = dict(
     level="exploration",
-    level_text="(filled in below)",
-    level_note="",
-    technique="property-based testing (rapidcheck plans, construction + metamorphic oracles) and libFuzzer with in-target oracle",
-    rule="(filled in below)",
-    assumptions=[],
+    level_text=("Generated-input search with explicit, independent oracles. (1) Construction + round trip: frames over all "
+                "16 opcode values, the 7/16/64-bit length classes, masked or not, FIN or not are serialised by iora, compared "
+                "byte for byte with an own RFC 6455 encoder, parsed back, and every proper prefix must be 'incomplete'. "
+                "(2) Metamorphic/construction: protocol-aware streams (1-5 messages, 1-5 fragments, pings/pongs between "
+                "fragments, close, invalid UTF-8) are fed under ALL single cut points, byte-by-byte and random multi-cuts, "
+                "in-process, to a WebSocketServer subclass and (hook H3) to WebSocketClient::handleData; deliveries must equal "
+                "the generator's message list for every segmentation. (3) Wire capture over real loopback connections with a "
+                "raw-socket peer and an exact per-segment read barrier: pongs match pings, application sends arrive intact, no "
+                "data frame behind the endpoint's close frame - also with 1-4 application threads racing the close handshake. "
+                "(4) Hostile headers (declared lengths up to 2^64-1, beyond maxFrameSize, illegal control frames, endless "
+                "fragments, mutated streams): nothing throws, single allocations stay proportional to the bytes received "
+                "(ASan allocator hooks), the endpoint gives up instead of buffering. (5) libFuzzer on parse and on both data "
+                "paths with the reference decoder + reassembly model inside the target, -malloc_limit_mb=64. "
+                "Exploration is the right level: the property quantifies over all streams, all segmentations and all "
+                "schedules; this finds counterexamples and never proves absence."),
+    level_note=("Trusts the reference codec/UTF-8 validator/reassembly model in harness/common/c18_ref_ws.hpp (written from "
+                "RFC 6455/3629, shares no code with iora; the generator's frames are cross-checked by decoding them with the "
+                "reference decoder inside the wire oracle), OpenSSL's SHA-1/base64 for the handshake, the kernel's TCP_INFO/"
+                "FIONREAD for the read barrier, and that ASan/UBSan expose undefined behaviour on the executed inputs. "
+                "Schedules of the close race are sampled, not enumerated; the in-process properties are deterministic."),
+    technique="property-based testing (rapidcheck plans; construction, metamorphic and wire-capture oracles) and libFuzzer with in-target oracle",
+    rule=("frame_roundtrip: one frame per case (opcode x length class {0..5,124..128,65534..65537,70000,random<=200000} x mask/key "
+          "x FIN), all (<=2 KiB) or sampled prefixes; distinct by hash(payload, opcode, FIN, mask). "
+          "server_segments/client_segments: a protocol-aware stream, fed whole + every single cut (all positions up to 600 "
+          "bytes, otherwise every position in/around each header + 48 sampled) + one byte per read + 4 random multi-cuts; "
+          "NON-TRIVIAL (the property's stated rule) = the stream contains a fragmented message with a control frame between "
+          "its fragments AND a cut inside a frame header was executed; distinct by hash of the wire bytes. "
+          "server_wire/client_wire: stream + segmentation + up to 6 application sends (text/binary/ping/close, lengths "
+          "0..70001) interleaved, over a real connection; same non-trivial rule, distinct by hash(wire, plan). "
+          "*_close_race: 1-4 threads x 5-150 sends against a close started by the application / the peer's close frame / an "
+          "invalid text; every case is non-trivial, distinct by plan. hostile: parse headers, oversized declared frames, "
+          "illegal control frames and MSB-set lengths followed by 70 KB of valid traffic, endless fragments, mutated streams; "
+          "distinct by the hostile bytes. fuzz: inputs whose selected mode decoded at least one complete frame (parse) / a "
+          "conformant stream of >= 2 frames (data paths); distinct by hash of the input."),
+    assumptions=[
+        "the reference encoder/decoder/UTF-8 validator/reassembly model (harness/common/c18_ref_ws.hpp) is RFC 6455/3629-correct",
+        "hook H3 (hooks/C18-ws-client-probe.diff, a friend declaration under JOEGEN_IORA_VERIF) is applied; without it the "
+        "client's in-process properties report a label and only the loopback properties exercise the client",
+        "a well-behaved peer waits for the 101 response before it sends frames (frames racing the upgrade are not generated)",
+        "replies to a peer that has already half-closed the TCP connection may be dropped by the transport (C01/C16 territory): "
+        "the raw peer keeps its side open until it has seen the endpoint's close frame",
+    ],
     units=[
         pbt("c18_ws", "harness/c18_ws.cpp", dict(
-            frame_roundtrip=P(2500, 40000, 4, 16),
-            server_segments=P(300, 5000, 4, 16),
-            client_segments=P(300, 5000, 4, 16),
+            frame_roundtrip=P(1500, 20000, 4, 16),
+            server_segments=P(200, 2500, 4, 16),
+            client_segments=P(200, 2500, 4, 16),
+            server_wire=P(200, 4000, 2, 8, **_LOOP),
+            client_wire=P(100, 2500, 2, 8, **_LOOP),
+            server_close_race=P(100, 2000, 1, 4, **_LOOP),
+            client_close_race=P(100, 2000, 1, 4, **_LOOP),
+            hostile=P(2000, 40000, 2, 8),
         )),
+        fuzz("c18_fuzz_ws", "harness/fuzz_ws.cpp",
+             dict(runs=150000, procs=4, max_len=512, max_seconds=25, malloc_limit_mb=64, rss_limit_mb=2048),
+             dict(runs=20000000, procs=16, max_len=4096, max_seconds=300, malloc_limit_mb=64, rss_limit_mb=2048),
+             corpus="corpus/C18"),
     ],
 )
